@@ -343,9 +343,13 @@ func (c *Client) Resume() error {
 // so that Disconnect does not sit out ConnectTimeout, reads up to the server's stream close itself.
 func (c *Client) closeUnattendedSession() {
 	transport := c.transport
+	// This reader serves the connection being closed: its decoder is taken now. The transport object is shared
+	// by the successive connections of the client; fetched later, from the go routine, it could be the decoder
+	// of the next session, which this loop would then read next to the real receiver, dropping what it gets.
+	decoder := transport.GetDecoder()
 	go func() {
 		for {
-			val, err := stanza.NextPacket(transport.GetDecoder())
+			val, err := stanza.NextPacket(decoder)
 			if err != nil {
 				return
 			}
